@@ -617,6 +617,18 @@ class CallsMixin:
             self.log_raise("ValueError", env, node, kind="index")
             env.dead = True
             return NONE
+        if name == "index" and recv.k in ("tuple", "list") and len(args) == 1 and args[0].k != "const" and recv.a[0] and len(recv.a[0]) <= 16 \
+                and all(x_.k == "const" for x_ in recv.a[0]):
+            # position of a symbolic value in a constant table: ValueError unless it equals one of the entries
+            hit = FALSE
+            for x_ in recv.a[0]:
+                hit = binop("or", hit, binop("==", args[0], x_))
+            self.log_raise("ValueError", env, node, kind="index", cond=un("not", hit))
+            env.add_fact(hit)
+            out_ = C(len(recv.a[0]) - 1)
+            for i_ in range(len(recv.a[0]) - 2, -1, -1):
+                out_ = gamma(binop("==", args[0], recv.a[0][i_]), C(i_), out_)
+            return out_
         if name in ("get",) and recv.ty == "dict":
             return T("call", "dictget", (recv, args[0]))
         if name in ("startswith", "endswith") and len(args) == 1 and args[0].k == "const" and isinstance(args[0].a[0], (bytes, bytearray)) \
